@@ -117,6 +117,42 @@ func (td *tableDef) hasVirtual() bool {
 	return false
 }
 
+// virtualBeforeKeyColumn: some VIRTUAL generated column is declared before a column that is part of a
+// key (primary, unique, secondary, inline or foreign key). On such tables the in-memory engine computes
+// key values from the stored row with shifted ordinals: key uniqueness is not enforced and UPDATE
+// duplicates rows, not reproducibly (a defect of key maintenance, properties C14/C18, reported in
+// notes/C22.md; not a SHOW CREATE matter). The DML part of the battery is skipped for them.
+func (td *tableDef) virtualBeforeKeyColumn() bool {
+	first := -1
+	for i := range td.Cols {
+		if td.Cols[i].Gen != "" && td.Cols[i].GenKind != "STORED" {
+			first = i
+			break
+		}
+	}
+	if first < 0 {
+		return false
+	}
+	for i := first + 1; i < len(td.Cols); i++ {
+		if td.Cols[i].Inline != "" || td.Cols[i].AutoInc {
+			return true
+		}
+	}
+	for _, k := range td.Keys {
+		for _, p := range k.Parts {
+			if p.Col > first {
+				return true
+			}
+		}
+	}
+	for _, f := range td.FKs {
+		if f.Col > first {
+			return true
+		}
+	}
+	return false
+}
+
 // pkOutOfOrder: a composite primary key whose columns are not listed in schema order.
 func (td *tableDef) pkOutOfOrder() bool {
 	for _, k := range td.Keys {
